@@ -13,6 +13,10 @@ CHECKS = {
          "InvRule; MatchAll results are the harness lists (engine wiring outside); engine; z3"),
  "C18": ("NewRule on hosts-file lines: address from a menu of 5 literals, 1..2 (thorough 1..3) names of symbolic bytes, symbolic blank/tab separators, comments attached or after blanks with symbolic bytes, trailing blanks, bare domains; Hostnames/IP/list id exact and Match(q) iff q listed for symbolic q",
          "netip.ParseAddr native on concrete literals, modelled as rejecting on digit-free symbolic tokens; engine; z3"),
+ "C17": ("ExtractHostname on grammar URLs with symbolic scheme/host/port/path/query/fragment bytes; effectiveTLDPlusOne against the real body of publicsuffix.EffectiveTLDPlusOne on symbolic hosts; every field of NewRequest/NewRequestForHostname incl. third-party symmetry and the 4 KiB cap",
+         "PSL replaced by a compact model validated exhaustively against the real library each run; net/url agreement validated on 20000 sampled grammar URLs; engine; z3"),
+ "C03": ("part (a) only so far: patternToRegexp on symbolic patterns of 1..3 (thorough 1..4) bytes: no crash and output == token-by-token translation of the mask syntax",
+         "strings.Replacer modelled from the live table; engine; z3"),
  "C16": ("unbounded in the fields the function reads (64-bit option word, 32-bit mask, exception flag fully symbolic under the parser's representation invariant); counterexamples replayed from rule text through the real parser",
          "InvRule on option words (validated natively on the repo's own rule corpus); go/ssa lowering; engine; z3"),
 }
